@@ -199,4 +199,33 @@ theorem code_no_keys_no_accept (now : Int) (t : Go.Inst) (j : Go.JWT) (tok : Go.
   unfold Code.TraefikOidc_VerifyJWTSignatureAndClaims
   rw [hj]; simp
 
+open Oidc.Generated Oidc.CodeRefine in
+/-- jwt.go `numericDateSeconds` as translated (fix F20): a NumericDate claim is read in whole seconds, saturated at ±2^62 — a claim
+    beyond the range in which `int64(float64)` is defined is later (earlier) than every clock reading, instead of whatever the
+    platform's conversion makes of it; inside the range it is `int64(x)` as before.  The refinement theorems read a token's time
+    claims through this function (`absJ`). -/
+theorem code_numericDateSeconds (x : Go.F64) :
+    Code.numericDateSeconds x = sat x.trunc ∧
+    (-4611686018427387904 < x.trunc ∧ x.trunc < 4611686018427387904 → Code.numericDateSeconds x = x.trunc) ∧
+    (4611686018427387904 ≤ x.trunc → Code.numericDateSeconds x = 4611686018427387904) ∧
+    (x.trunc ≤ -4611686018427387904 → Code.numericDateSeconds x = -4611686018427387904) := by
+  refine ⟨numericDateSeconds_eq x, fun h => by rw [numericDateSeconds_eq, sat_id _ h], fun h => ?_, fun h => ?_⟩
+  · rw [numericDateSeconds_eq]; unfold sat; simp [h]
+  · rw [numericDateSeconds_eq]; unfold sat
+    have : ¬ x.trunc ≥ 4611686018427387904 := by omega
+    simp [this, h]
+
+open Oidc.Generated Oidc.CodeRefine in
+/-- ... so an `iat` or `nbf` beyond the range is refused and an `exp` beyond it is not "expired", at every clock reading a run can
+    have (any `now` below 2^62 seconds, in nanoseconds) -/
+theorem code_time_claims_beyond_range (now : Int) (x : Go.F64) (hx : 4611686018427387904 ≤ x.trunc)
+    (hnow : now < 4611686018427387904 * 1000000000 - Code.ClockSkewTolerancePast) :
+    (Code.verifyIssuedAt now x).isSome = true ∧ (Code.verifyNotBefore now x).isSome = true ∧ (Code.verifyExpiration now x).isSome = false := by
+  have hs : sat x.trunc = 4611686018427387904 := by unfold sat; simp [hx]
+  have hp : Code.ClockSkewTolerancePast = 10000000000 := by decide
+  have hf : Code.ClockSkewToleranceFuture = 120000000000 := by decide
+  rw [verifyIssuedAt_isSome, verifyNotBefore_isSome, verifyExpiration_isSome, hs]
+  rw [hp] at hnow
+  refine ⟨decide_eq_true (by rw [hp]; omega), decide_eq_true (by rw [hp]; omega), decide_eq_false (by rw [hf]; omega)⟩
+
 end Oidc.Props.C02
